@@ -484,6 +484,13 @@ class C07(CoreCheck):
     def nontrivial(self, case, mo):
         return (" | E q=" in (mo or "") and " | W1 " in (mo or "")) or "=-1" in (mo or "")
 
+    def sibling_stages(self):
+        # "every wake-up makes progress instead of polling repeatedly": the wake-up of another thread's loop (the one-shot
+        # kick of iv_fd_epoll.c / the raw-event kick) only exists in multi-threaded runs: the C08 machinery (its model
+        # rejects a kick descriptor that is reported again without a new post)
+        import c08
+        return [("C08", c08.C08)]
+
     def gen_cases(self, ctx, rng, n):
         cases = CoreCheck.gen_cases(self, ctx, rng, n)
         # work that becomes due while the repeated-deadline kernel timer is ARMED (same far deadline on five consecutive
